@@ -393,9 +393,11 @@ def case(ctx, rng, idx):
         def _raise(signum, frame):
             raise _Interrupt()
         old_h = signal.signal(signal.SIGALRM, _raise)
-        signal.setitimer(signal.ITIMER_REAL, rng.choice([0.0005, 0.002, 0.006]))
+        delay_ = rng.choice([0.0005, 0.002, 0.006])
+        res = None
         try:
             try:
+                signal.setitimer(signal.ITIMER_REAL, delay_)      # (inside the try: on a loaded machine it may fire at once)
                 res = getattr(L.sim, cfg["fn"])(cfg["model"], **cfg["kw"])
                 exc = None
             finally:
